@@ -20,6 +20,13 @@
                                  window/group g handed downstream
      CWin g e                    subject_g.on_next/on_error/on_completed
      CSub/CUnsub/CTimer/CCancel/CEffect   as in Ops/Multi.v
+     CSubLive k                  a subscription made behind `if d.is_disposed:
+                                 return` (d = the underlying disposable of the
+                                 RefCountDisposable; operators/_window.py
+                                 window_when_): as CSub k while the underlying
+                                 disposable has not been released, nothing at
+                                 all (the handler returned before making it)
+                                 once it has
    and [fin]: the handler's last action is observer.on_completed()/on_error().
    Unlike in Ops/Multi.v a machine may be stepped again after it ended the
    outer sequence (window subscribers keep the operator alive).
@@ -67,10 +74,12 @@ Arguments ISubWin {A} g. Arguments IUnsubWin {A} g.
 Inductive cmd (W B : Type) :=
 | CEmit (b : B) | CHand (g : nat) (key : Z) | CWin (g : nat) (e : ev W)
 | CSub (k : nat) | CUnsub (k : nat)
-| CTimer (tag : nat) (delay : Z) | CCancel (tag : nat) | CEffect (n : Z).
+| CTimer (tag : nat) (delay : Z) | CCancel (tag : nat) | CEffect (n : Z)
+| CSubLive (k : nat).
 Arguments CEmit {W B} b. Arguments CHand {W B} g key. Arguments CWin {W B} g e.
 Arguments CSub {W B} k. Arguments CUnsub {W B} k.
 Arguments CTimer {W B} tag delay. Arguments CCancel {W B} tag. Arguments CEffect {W B} n.
+Arguments CSubLive {W B} k.
 
 Inductive obs (W B : Type) :=
 | OEmit (e : ev B) | OHand (g : nat) (key : Z) | OWin (g : nat) (e : ev W)
@@ -170,6 +179,10 @@ Definition apply_cmd (r : rstate W) (c : cmd W B) : rstate W * list (obs W B) :=
                    (r_released r), [OCancel tag])
       else (r, [])
   | CEffect n => (r, [OEffect n])
+  | CSubLive k =>
+      if r_released r then (r, [])
+      else (RState (r_live r ++ [k]) (r_timers r) (r_outer r) (r_wsubs r) (r_wterm r) (r_handed r)
+                   (r_released r), [OSub k])
   end.
 
 Fixpoint apply_cmds (r : rstate W) (cs : list (cmd W B)) : rstate W * list (obs W B) :=
